@@ -71,7 +71,7 @@ func c13(r *mon.Run) {
 		"parser histories: one Parser parses sequences of 5-50 valid, ungrammatical and unlexable expressions interleaved; each result (AST, or error type, text, offset and expression) must equal that of a fresh Parser. Non-trivial = distinct histories containing a failing call followed by a succeeding one and a repeated document; parser histories containing a failure followed by a success."
 	r.Floor = 200
 	r.Assumptions = []string{"documents handed to the three call paths are separate deep copies, so document mutation (C06) cannot masquerade as history dependence"}
-	base := docs.J(c06DocText).(map[string]interface{})
+	base := c06BaseDoc()
 	var fixed []*gen.Expr
 	for _, c := range c06Calls(true, base) {
 		ns := c06Nestings(c)
